@@ -40,6 +40,15 @@ def gen(src, consts):
     rest = [ast.unparse(st).split('\n')[0] for st in body[1:]]
     if rest != ['if time.time() - start_time > self._timeout:', 'time.sleep(IDLE_WAIT)']:
         raise ExtractError('_wait_for_request: loop tail changed: %r' % rest)
+    # order of the single dict operations inside register_request and remove (the reader runs between them)
+    reg = [ast.unparse(st).split('\n')[0] for st in strip_doc(src.func('rpc.py', 'Rpc', 'register_request').body) if not is_logging(st)]
+    i_resp = next((i for i, t in enumerate(reg) if t.startswith('self._response[uuid] =')), None)
+    i_req = next((i for i, t in enumerate(reg) if t.startswith('for ') and 'valid_responses' in t), None)
+    register_response_first = i_resp is not None and i_req is not None and i_resp < i_req
+    rem = [ast.unparse(st) for st in strip_doc(src.func('rpc.py', 'Rpc', 'remove').body) if not is_logging(st)]
+    remove_request_first = rem == ['self.remove_request(uuid)', 'self.remove_response(uuid)']
+    if not remove_request_first and rem != ['self.remove_response(uuid)', 'self.remove_request(uuid)']:
+        raise ExtractError('Rpc.remove: unrecognised body %r' % rem)
     return ('namespace Amqp.Gen.RpcWait\n'
             '/-- a queued AMQPMessageError does not abort a pending request: it is put back at the head of\n'
             '    the channel\'s error list and raised by the next operation -/\n'
@@ -48,7 +57,12 @@ def gen(src, consts):
             'def deferralRequiresOpen : Bool := %s\n'
             '/-- the deferred error is put back (false: the handler drops it and nobody ever sees it) -/\n'
             'def keepsDeferredError : Bool := %s\n'
-            'end Amqp.Gen.RpcWait\n' % (str(defers).lower(), str(requires_open).lower(), str(keeps).lower()))
+            '/-- `Rpc.register_request` creates the reply slot before it maps the first frame name to it -/\n'
+            'def registerResponseFirst : Bool := %s\n'
+            '/-- `Rpc.remove` drops the frame-name mappings before the reply slot -/\n'
+            'def removeRequestFirst : Bool := %s\n'
+            'end Amqp.Gen.RpcWait\n' % (str(defers).lower(), str(requires_open).lower(), str(keeps).lower(),
+                                        str(register_response_first).lower(), str(remove_request_first).lower()))
 
 
 FILES = {'RpcWait.lean': gen}
